@@ -72,6 +72,9 @@ def check_files(ctx, jobname_prefixes):
                 f = line.split()
                 if not f: continue
                 if f[0] == 'H':
+                    if len(f) < 5:
+                        cur = None      # truncated header of a process that died
+                        continue
                     cur = dict(case=int(f[1]), prim=f[2], nthreads=int(f[3]), init=int(f[4]), ops=[], raw=[line])
                 elif f[0] == 'O' and cur is not None:
                     if len(f) < 9:
